@@ -916,6 +916,9 @@ pub struct GenOpts {
     pub interleave: bool,
     pub repeat_bias: bool,
     pub defrag_focus: bool,
+    /// many files per session, always cleaned concurrently on 4..16 workers: the shared session state
+    /// (shard manager flushes, aggregator merges, upload tasks) is hit from many tasks at once
+    pub storm: bool,
 }
 
 pub fn gen_history(rng: &mut Rng, l: &Limits, o: &GenOpts) -> Vec<SessionSpec> {
@@ -936,10 +939,14 @@ pub fn gen_history(rng: &mut Rng, l: &Limits, o: &GenOpts) -> Vec<SessionSpec> {
     let mut sessions = Vec::new();
     let mut n_caches = 1usize;
     for si in 0..n_sessions {
-        let nf = match rng.below(5) {
-            0 => 1,
-            1 => rng.urange(1, 2),
-            _ => rng.urange(1, o.max_files),
+        let nf = if o.storm {
+            rng.urange((o.max_files / 2).max(2), o.max_files)
+        } else {
+            match rng.below(5) {
+                0 => 1,
+                1 => rng.urange(1, 2),
+                _ => rng.urange(1, o.max_files),
+            }
         };
         let want_dedup = if si == 0 { rng.below(3) } else if o.repeat_bias { rng.range(4, 9) } else { rng.below(8) };
         let mut files = Vec::new();
@@ -1022,8 +1029,8 @@ pub fn gen_history(rng: &mut Rng, l: &Limits, o: &GenOpts) -> Vec<SessionSpec> {
         };
         sessions.push(SessionSpec {
             files,
-            workers: *rng.pick(&[1usize, 2, 4, 16]),
-            concurrent: rng.chance(2, 3),
+            workers: if o.storm { *rng.pick(&[4usize, 8, 16]) } else { *rng.pick(&[1usize, 2, 4, 16]) },
+            concurrent: o.storm || rng.chance(2, 3),
             fresh_cache_global_dedup: fresh,
             delay_seed: if rng.chance(1, 2) { Some(rng.next_u64()) } else { None },
             salt,
@@ -1067,6 +1074,7 @@ pub fn run(args: &Args, rep: &mut Report) {
         interleave: !args.has("no-interleave"),
         repeat_bias: args.has("repeat-bias"),
         defrag_focus: args.has("defrag-focus"),
+        storm: args.has("storm"),
     };
     let cfg_id = format!("t{}|xb{}|xc{}|ib{}|fp{}", l.target, l.max_xorb_bytes, l.max_xorb_chunks, l.ingestion_block, l.frag_prevention_off as u8);
     let mut failed_sessions = 0u64;
@@ -1238,6 +1246,7 @@ pub fn run_faults(args: &Args, rep: &mut Report) {
         interleave: false,
         repeat_bias: false,
         defrag_focus: false,
+        storm: false,
     };
     let max_points = args.usize("max-points", 20);
     let cfg_id = format!("t{}|xb{}|xc{}", l.target, l.max_xorb_bytes, l.max_xorb_chunks);
